@@ -268,7 +268,7 @@ def run_one(choices, params):
 
     out, sim = H.simulate(choices, main, strategy=strat, netcfg=cfg, step_cap=300000)
     if out["kind"] == "deadlock":
-        out = {"kind": "violation", "cls": "hang", "detail": "deadlock: %s" % (sim.where_blocked(),), "sig": None,
+        out = {"kind": "violation", "cls": "hang", "detail": "deadlock: %s" % (H.blocked_in(out["report"]),), "sig": None,
                "report": out["report"]}
     elif out["kind"] == "cap":
         out = {"kind": "violation", "cls": "hang", "detail": "step cap (livelock=%s)" % out.get("livelock"), "sig": None,
